@@ -139,6 +139,21 @@ def run(ctx):
             continue
         b = paired.by_cell(base)
         ncell = len(sc.cell_ids)
+        # c06_factor_one_unanimous on the implementation: at factor 1 every iteration draws all markers, so every
+        # vote is unanimous -- probability 1 and no runner-up at every level where a vote was held
+        for cid, rec in b.items():
+            for lv in sc.tree.levels:
+                a = rec.get(lv)
+                if a is None or not a.get('directly_assigned'):
+                    continue
+                if a['bootstrapping_probability'] != 1.0 or a.get('runner_up_assignment'):
+                    ctx.disagreements_checked += 1
+                    d2 = dict(desc)
+                    d2['class'] = 'c06-factor-one-vote-not-unanimous'
+                    d2['record'] = a
+                    ctx.violation(f'cell {cid} level {lv}: at bootstrap factor 1 the vote must be unanimous, got probability '
+                                  f'{a["bootstrapping_probability"]} and runners-up {a.get("runner_up_assignment")}', d2)
+                    break
         variants = []
         perm = list(range(ncell))
         rng.shuffle(perm)
